@@ -225,7 +225,7 @@ def family_case(rng, idx, nops):
         elif q < 0.92:
             ops.append("discretize")
         elif q < 0.96:
-            ops.append(rng.choice(["copy", "copy", "fork", "forkassign", "swap"]))
+            ops.append(rng.choice(["copy", "copy", "fork", "forkassign", "swap", "selfassign"]))
         else:
             g = Fam(rng)
             if rng.random() < 0.5:
@@ -522,7 +522,7 @@ def shared_case(rng, idx, nops):
         elif q < 0.75:
             ops.append("swap")
         elif q < 0.82:
-            ops.append(rng.choice(["fork", "forkassign", "copy"]))
+            ops.append(rng.choice(["fork", "forkassign", "copy", "selfassign"]))
         elif q < 0.9:
             ops.append("setn %d" % pick_n(rng))
         elif q < 0.95:
@@ -556,7 +556,7 @@ def coverage_extra(cases, answers):
         t = c[0].split()
         fam[t[2] if len(t) > 2 else "?"] = fam.get(t[2] if len(t) > 2 else "?", 0) + 1
         ops = [l for l in c if not l.startswith("case")]
-        k = sum(1 for l in ops if l.split()[0] in ("setp", "setn", "median", "restrict", "discretize", "copy", "fork", "forkassign", "swap"))
+        k = sum(1 for l in ops if l.split()[0] in ("setp", "setn", "median", "restrict", "discretize", "copy", "fork", "forkassign", "swap", "selfassign"))
         b = "%d-%d" % (k // 4 * 4, k // 4 * 4 + 3)
         hist_len[b] = hist_len.get(b, 0) + 1
         for l, r in zip(ops, a or []):
